@@ -431,6 +431,11 @@ def _lit_number(a, ver) -> str:
             return '(1 div 0)' if x > 0 else '(-1 div 0)'
         if x == 0 and math.copysign(1, x) < 0:
             return '(-0)'
+        if abs(x) >= 2.0 ** 53:
+            # XPath 1.0 has no exponent notation; elementpath keeps such a literal as an exact Decimal (the
+            # recorded 'XPath 1.0 exact arithmetic' finding of C06), so sums with doubles differ from IEEE
+            # arithmetic beyond 2**53: such arguments are passed as variables instead (outside C09's domain)
+            return None
         body = X.xpath1_number_to_string(abs(x))
         if '.' not in body:
             body += '.0'
@@ -470,7 +475,12 @@ def _render(case) -> tuple[str, dict] | None:
         elif k == 'cps':
             parts.append('(' + ', '.join(str(c) if c >= 0 else '(' + str(c) + ')' for c in a[1]) + ')')
         else:
-            parts.append(_lit_number(a, ver))
+            ln = _lit_number(a, ver)
+            if ln is None:
+                variables['v%d' % i] = _py_value(a)
+                parts.append('$v%d' % i)
+            else:
+                parts.append(ln)
     return case['fn'] + '(' + ', '.join(parts) + ')', variables
 
 
@@ -1432,7 +1442,7 @@ def selftest():
     assert _quote("it's", '2.0', 0) == "'it''s'" and _quote('a"b', '2.0', 1) == '"a""b"'
     assert _quote("it's", '1.0', 0) == '"it\'s"' and _quote('\'"', '1.0', 0) is None
     assert _lit_number(['d', '2.5'], '2.0') == '2.5e0' and _lit_number(['d', '-inf'], '1.0') == '(-1 div 0)'
-    assert _lit_number(['d', '1e+21'], '1.0') == '1000000000000000000000.0'
+    assert _lit_number(['d', '1e+21'], '1.0') is None and _lit_number(['d', '4096'], '1.0') == '4096.0'
     assert _expected({'ver': '2.0', 'fn': 'substring', 'args': [['s', '12345'], ['d', '1.5'], ['d', '2.6']]}) == ('str', '234')
     assert _expected({'ver': '2.0', 'fn': 'concat', 'args': [['s', 'a'], ['d', '1e-07'], ['i', 5], ['c', '1.50'], ['b', True], ['e']]}) \
         == ('str', 'a1.0E-751.5true')
